@@ -92,6 +92,10 @@ class Model:
                 ops.append(["enq", nxt, when])
             if nxt == "m1":
                 ops.append(["enq", nxt, "noparams"])
+            if nxt == "m0" and not any(v["started"] for v in self.c.values()):
+                # a start state of its own: the first message is dead-lettered already (enqueue, take, nack
+                # as one step), so that the dead category is reached within the depth bound
+                ops.append(["enq", nxt, "dead"])
         for c in self.consumers:
             if self.c[c]["started"]:
                 ops.append(["consume", c])
@@ -214,6 +218,15 @@ class Runner:
     def _coro(self, op):
         w, b = self.w, self.w.broker
         kind = op[0]
+        if kind == "enq" and op[2] == "dead":
+            async def enq_dead():
+                await b.enqueue(w.key(op[1], MSGS[op[1]]), f"p:{op[1]}", _params_for(w, "now"))
+                tmp = b.get_consumer("q", None, None, MessageCategory.NORMAL)
+                await tmp.start()
+                k_, _, _ = await tmp.consume()
+                await b.nack(k_)
+                await tmp.finish()
+            return enq_dead()
         if kind == "enq":
             return b.enqueue(w.key(op[1], MSGS[op[1]]), f"p:{op[1]}", _params_for(w, op[2]))
         if kind == "start":
@@ -311,8 +324,8 @@ class Runner:
             return
         if kind == "enq":
             mid, when = op[1], op[2]
-            off = None if when == "noparams" else ENQ_WHEN[when]
-            model.m[mid] = dict(place="waiting" if off is None else "delayed",
+            off = None if when in ("noparams", "dead") else ENQ_WHEN[when]
+            model.m[mid] = dict(place="dead" if when == "dead" else "waiting" if off is None else "delayed",
                                 due=None if off is None else now_start + off,
                                 holder=None, src=None, payload=f"p:{mid}", tried=0, noparams=when == "noparams")
         elif kind == "start":
@@ -686,7 +699,8 @@ def search(kind, tier):
                         job=dict(kind=kind, nmsgs=nm, consumers=cons, hist=r["hist"]),
                     ))
                 continue  # a violating state is not expanded
-            if d <= cfg["cancel_depth"] and r["hist"][-1][0] != "tick" and r["iters"] > 0:
+            if d <= cfg["cancel_depth"] and r["hist"][-1][0] != "tick" and r["iters"] > 0 \
+                    and r["hist"][-1][-1] != "dead":  # the composite start step is not an API call
                 cancel_pairs.append((r["hist"], r["iters"]))
             if r["key"] in seen:
                 continue
